@@ -286,7 +286,7 @@ def ladder(ctx, n):
         ctx.add('mt.mulbaseclamped', kb.hex(), expect=[ref.x25519(kb, to32(9)).hex()], cls=['ep:ladder'])
 
 
-def task(prop, seed, size, cfgbins, big=()):
+def make(seed, size, big=()):
     ctx = core.Ctx(seed, prefix='m%d_' % (seed % 100000))
     pool = vals.point_pool(ctx.rng, 48)
     if size:
@@ -297,6 +297,11 @@ def task(prop, seed, size, cfgbins, big=()):
         multi(ctx, pool, [0, 1, 2, 3, 8, rng_size(ctx, 4, 60)], reps=1)
     if big:
         multi(ctx, pool, list(big), reps=1)
+    return ctx
+
+
+def task(prop, seed, size, cfgbins, big=()):
+    ctx = make(seed, size, big=big)
     return core.run_and_judge(prop, ctx, cfgbins)
 
 
@@ -304,10 +309,15 @@ def rng_size(ctx, lo, hi):
     return ctx.rng.randint(lo, hi)
 
 
-def task_digits(prop, seed, size, cfgbins):
+def make_digits(seed, size):
     ctx = core.Ctx(seed, prefix='d%d_' % (seed % 100000))
     pool = vals.point_pool(ctx.rng, 24)
     digit_scalars(ctx, pool)
+    return ctx
+
+
+def task_digits(prop, seed, size, cfgbins):
+    ctx = make_digits(seed, size)
     return core.run_and_judge(prop, ctx, cfgbins)
 
 
